@@ -3,6 +3,7 @@ mod child;
 mod damage;
 mod framework;
 mod gen;
+mod lo;
 mod model;
 mod persist;
 mod procsim;
@@ -45,6 +46,10 @@ macro_rules! with_workload {
                 let $w = persist::PersistWorkload;
                 $body
             }
+            "C17" | "C18" => {
+                let $w = lo::LoWorkload { property: if $id == "C17" { "C17" } else { "C18" } };
+                $body
+            }
             "C19" => {
                 let $w = damage::DamageWorkload { base: framework::verif_seed() };
                 $body
@@ -62,6 +67,8 @@ fn plan_for(id: &str) -> (u64, u64, u64, u64) {
         "C10" => (1000, 50000, 300, 2400),
         "C09" => (800, 40000, 300, 2400),
         "C19" => (0, 0, 600, 3000),
+        "C17" => (3000, 150000, 300, 2400),
+        "C18" => (3000, 150000, 300, 2400),
         _ => (100, 1000, 300, 2400),
     }
 }
